@@ -421,6 +421,25 @@ impl Property for C09 {
         let mut w = WorldA::build(ctx, gen, net, false);
         let mut o = Oracle { shares: Vec::new(), lines: Vec::new() };
         w.run(ctx, &mut o)?;
+        // large inputs (beyond every documented limit) to every byte-level receiver
+        if ctx.ch.chance(1, 4) {
+            let n = *ctx.ch.pick(&[16_384usize, 16_385, 20_000, 70_000]);
+            let mut big = ctx.ch.bytes(n);
+            if ctx.ch.chance(1, 2) {
+                // a well-formed honest prefix followed by junk
+                if let Some(s) = w.sent.values().next() {
+                    let k = s.bytes.len().min(big.len());
+                    big[..k].copy_from_slice(&s.bytes[..k]);
+                }
+            }
+            decode_all(ctx, &big)?;
+            let _ = rx!(ctx, "ServerPublicKey::load_from_bincode", &big[..64], pp::ServerPublicKey::load_from_bincode(&big).is_ok());
+            let _ = rx!(ctx, "ProofDLEQ::load_from_bincode", &big[..64], pp::ProofDLEQ::load_from_bincode(&big).is_ok());
+            let _ = rx!(ctx, "serde_json->Evaluation", &big[..64], serde_json::from_slice::<pp::Evaluation>(&big).is_ok());
+            let line = BASE64_STANDARD.encode(&big);
+            let _ = rx!(ctx, "star_wasm::group_shares", &big[..64], star_wasm::group_shares(&line, "t").is_some());
+            ctx.stats.fault("oversized_input");
+        }
         ppoprf_receivers(ctx)?;
         let accepted = ctx.stats.probes.get("decoder_accepted_corrupted_report").copied().unwrap_or(0) + ctx.stats.probes.get("decoder_accepted_as_share").copied().unwrap_or(0);
         if accepted > 0 {
